@@ -123,6 +123,48 @@ CHECKS = {
         "Trusted: refmodel decoder, lenient reference response reader; default configuration only; frames after a close frame are not judged; "
         "a status token that only Python's int() reads as 101 is don't-care.",
     ),
+    "C08": (
+        "exploration",
+        "model-based testing over generated call/event histories in virtual time (Hypothesis list-of-steps, OPEN/CLOSE_SENT/RELEASED reference model checked after every step)",
+        "Histories of up to 30 (50) client calls and server events run against the real connect()/send/recv/close code on the "
+        "simulated network with a virtual clock; after every step the model's invariants are checked: at most one close frame on "
+        "the client's own initiative, exact close-frame encoding, out-of-range statuses refused before any write, release of the "
+        "transport after close()/shutdown()/end of stream with all later calls raising the connection-closed exception without touching the transport, and close(timeout=t) returning by start+t.",
+        "Trusted: simkit virtual clock (computation takes zero time), ServerPeer policies; connection loss = end of stream (reset is don't-care); socket timeout always set.",
+    ),
+    "C12": (
+        "exploration",
+        "exhaustive short-write compositions + schedule exploration under a deterministic scheduler (Hypothesis-generated choices, bounded line-level preemptions, sweeps over every single preemption point of fixed scenarios); oracle = independent decode of the concatenated wire bytes and message accounting",
+        "Single thread: every composition of the frame length as a short-write pattern for frames up to 11 bytes, sampled patterns up to "
+        "100 kB. Threads: 2..4 senders / receivers / both on one connection, interleaved at simulated blocking points and at "
+        "generated or enumerated line boundaries inside websocket/; the wire must decode into whole frames equal (as a multiset, "
+        "order kept per thread) to what was sent, and every server message must reach exactly one receiver intact.",
+        "Trusted: simkit scheduler (one thread runs at a time; switches at sim primitives and traced line boundaries, not inside C code).",
+    ),
+    "C13": (
+        "exploration",
+        "Hypothesis-generated server timelines in virtual time against the callback trace predicted by StreamModel (order, arguments, promptness), plain and simulated-TLS transports",
+        "run_forever() runs against timelines of segments (several frames per segment, fragments across segments, frames sharing the "
+        "handshake segment, TLS records hiding decrypted bytes from the selector); the recorded callback trace must equal the expected "
+        "one event for event, each at the virtual time its last byte arrived, with raising callbacks reported once to on_error.",
+        "Trusted: simkit/SimSocket TLS record model (pending() = decrypted unread bytes; selector sees undecrypted records only).",
+    ),
+    "C14": (
+        "exploration",
+        "Hypothesis-generated endings x traffic x ping settings for one or two consecutive runs in virtual time, with schedule choices and line-level preemptions for close() from a second thread (single-preemption sweeps of fixed scenarios); invariants over the callback trace, return value, sockets and threads",
+        "Every way a run can end (15 kinds incl. close() from each callback and from a second thread) is generated with preceding "
+        "traffic; run_forever must return, on_close must be the single last callback with the server's (code, reason) or (None, None), "
+        "sockets and ping thread must be gone, app.sock None, and the return value must be True exactly when on_error was called.",
+        "Trusted: simkit scheduler and virtual clock; for close() racing with the dispatcher thread the close arguments are not judged and both clean and error outcomes are admitted.",
+    ),
+    "C16": (
+        "exploration",
+        "enumerated (interval, timeout) grid x peer behaviours + Hypothesis-generated pong latencies, traffic timing and schedules in virtual time; bounded-liveness oracle P*+2T and safety oracle for responsive peers",
+        "All grid pairs T in {1,2,3,5} x I in {T+0.1,1.5T,2T,2T+0.1,3T,10T} run with responsive and silent peers (with and without "
+        "surrounding traffic); Hypothesis varies latencies (< T), the ping after which the peer falls silent, data/ping/unsolicited-pong "
+        "traffic around every ping, scheduler choices and preemptions. Invalid settings must be refused before any network activity.",
+        "Trusted: simkit virtual clock; peers answering later than T are not judged; unsolicited pongs are not generated for peers meant to be silent (indistinguishable from answers).",
+    ),
 }
 
 PENDING_REASON = "check not built yet in this work-in-progress commit (will be claimed once its generator/oracle is committed)"
